@@ -57,6 +57,7 @@ pub fn seeds() -> Vec<String> {
         "<p><s>a\u{3000}</s> b <del>x\u{2003}y\u{a0}</del></p>",
         "<ul><li><s>qa\u{a0}</s><br>qb</li></ul>",
         // content without any display width: only combining marks / zero-width spaces, empty tables in prefixed blocks
+        "<p>qa<sup>2<em>qn</em></sup> qb<sup>17<a href=\"/1\">qo</a></sup> qc<sup><em>3</em>4</sup></p>",
         "<ul><li>\u{301}</li></ul>",
         "<blockquote>\u{200b}</blockquote><ol><li>\u{301}\u{301} \u{301}</li></ol>",
         "<table><tr><td>\u{301}</td></tr></table>",
